@@ -474,8 +474,12 @@ func TestC18TCPStorm(t *testing.T) {
 		if err := vkit.LoadJSON(f, &s); err != nil {
 			t.Fatalf("bad regress file %s: %v", f, err)
 		}
-		if kind, msg := do(&s, ""); kind != "" {
-			r.Violate(kind, "regress "+f+": "+msg, &s)
+		for i := 0; i < 8; i++ { // storms are schedule-dependent by nature
+			if kind, msg := do(&s, ""); kind != "" {
+				r.Violate(kind, "regress "+f+": "+msg, &s)
+
+				break
+			}
 		}
 	}
 	if r.Violations() > 0 {
